@@ -795,8 +795,61 @@ class DetKey(certv2.Key):
         return self.priv.sign(message, ec.ECDSA(hashes.SHA256(), deterministic_signing=True))
 
 
-def det_x509(subject_cn, subject_key, issuer_cn, issuer_key, serial, ca=True):
-    """DER certificate, deterministic (RFC 6979 signature, fixed validity window far from today)."""
+# ------------------------------------------------------------------------------------------------
+# WHEN the certificates of the SGX chain are valid, and WHERE (time zone) the verifier runs
+# ------------------------------------------------------------------------------------------------
+# kinds of validity window of one certificate (`who`: pck, pca, root), relative to the real clock:
+#   far        2021 .. 2049 (the default, deterministic)
+#   issued1h   valid since a little while (40 min .. 5 h)         in period
+#   expires1h  valid for a little while longer                      in period
+#   expired1h  expired a little while ago                           OUT of period: must be refused
+#   notyet1h   valid from a little while from now                   OUT of period: must be refused
+# The edge is always closer to "now" than the smallest non-zero UTC offset explored (8 h), so a
+# verifier that mistook local time for UTC would cross it.
+WHEN_KINDS = ("issued1h", "expires1h", "expired1h", "notyet1h")
+WHEN_OUT = ("expired1h", "notyet1h")
+TZS = ("UTC0", "PST8", "JST-9", "<+14>-14", "<-12>12")      # POSIX TZ strings: no tzdata needed
+EDGE_MINUTES = (40, 60, 90, 180, 300)
+
+
+def window(kind, minutes, now):
+    import datetime
+    far_a = datetime.datetime(2021, 1, 1, tzinfo=certv2.UTC)
+    far_b = datetime.datetime(2049, 12, 31, tzinfo=certv2.UTC)
+    d = datetime.timedelta(minutes=minutes)
+    now = now.replace(microsecond=0)
+    return {"far": (far_a, far_b), "issued1h": (now - d, far_b), "expires1h": (far_a, now + d),
+            "expired1h": (far_a, now - d), "notyet1h": (now + d, far_b)}[kind]
+
+
+class Zone:
+    """The verifying machine's time zone for the duration of a block (process-wide: TZ + tzset)."""
+
+    def __init__(self, tz):
+        self.tz = tz
+
+    def __enter__(self):
+        import time
+        self.old = os.environ.get("TZ")
+        if self.tz:
+            os.environ["TZ"] = self.tz
+            time.tzset()
+        return self
+
+    def __exit__(self, *a):
+        import time
+        if self.tz:
+            if self.old is None:
+                os.environ.pop("TZ", None)
+            else:
+                os.environ["TZ"] = self.old
+            time.tzset()
+        return False
+
+
+def det_x509(subject_cn, subject_key, issuer_cn, issuer_key, serial, ca=True, valid=None):
+    """DER certificate, deterministic (RFC 6979 signature, fixed validity window far from today
+    unless `valid` = (not before, not after) says otherwise)."""
     import datetime
     from cryptography import x509
     from cryptography.hazmat.primitives import hashes, serialization
@@ -807,8 +860,8 @@ def det_x509(subject_cn, subject_key, issuer_cn, issuer_key, serial, ca=True):
                           x509.NameAttribute(NameOID.ORGANIZATION_NAME, "verif harness C15")])
     b = (x509.CertificateBuilder().subject_name(name(subject_cn)).issuer_name(name(issuer_cn))
          .public_key(subject_key.pub).serial_number(serial)
-         .not_valid_before(datetime.datetime(2021, 1, 1, tzinfo=certv2.UTC))
-         .not_valid_after(datetime.datetime(2049, 12, 31, tzinfo=certv2.UTC))
+         .not_valid_before(valid[0] if valid else datetime.datetime(2021, 1, 1, tzinfo=certv2.UTC))
+         .not_valid_after(valid[1] if valid else datetime.datetime(2049, 12, 31, tzinfo=certv2.UTC))
          .add_extension(x509.BasicConstraints(ca=ca, path_length=None), critical=True))
     cert = b.sign(issuer_key.priv, hashes.SHA256(), ecdsa_deterministic=True)
     return cert.public_bytes(serialization.Encoding.DER)
@@ -823,10 +876,18 @@ class SgxMaterial:
         self.fresh_root = DetKey(rng)
         cn = {n: "c15 %s %d" % (n, rng.getrandbits(32)) for n in ("root", "pca", "pck")}
         sn = [rng.getrandbits(150) | 1 for _ in range(4)]
+        import datetime
+        wh = case.get("when") or {}
+        now = datetime.datetime.now(certv2.UTC)
+
+        def valid(who):
+            if wh.get("who") == who and wh.get("kind", "far") != "far":
+                return window(wh["kind"], wh.get("minutes", 60), now)
+            return None
         self.der = {
-            "root": det_x509(cn["root"], self.root, cn["root"], self.root, sn[0]),
-            "pca": det_x509(cn["pca"], self.pca, cn["root"], self.root, sn[1]),
-            "pck": det_x509(cn["pck"], self.pck, cn["pca"], self.pca, sn[2], ca=False),
+            "root": det_x509(cn["root"], self.root, cn["root"], self.root, sn[0], valid=valid("root")),
+            "pca": det_x509(cn["pca"], self.pca, cn["root"], self.root, sn[1], valid=valid("pca")),
+            "pck": det_x509(cn["pck"], self.pck, cn["pca"], self.pca, sn[2], ca=False, valid=valid("pck")),
             "fresh_root": det_x509(cn["root"], self.fresh_root, cn["root"], self.fresh_root, sn[3]),
         }
         srng = random.Random("c15-shape:%d" % case["devseed"])
@@ -1258,6 +1319,16 @@ def run_case(case, scratch, tag="c"):
 
 
 def _obs(case, truth):
+    o = _obs0(case, truth)
+    wh = case.get("when") or {}
+    o["tz"] = case.get("tz") or "UTC0"
+    o["when_who"], o["when_kind"] = wh.get("who", "none"), wh.get("kind", "far")
+    if wh.get("kind") in WHEN_OUT and o["alt"] == "none":
+        o["alt"] = "period"
+    return o
+
+
+def _obs0(case, truth):
     return {"udsrc": case.get("udsrc", "hex"), "node": case.get("node", "hex"), "node_at": case.get("node_at", 0),
             "node_n": "0x%x" % case.get("node_number", 0), "node_url": case.get("node_url", ""),
             "rootvia": case.get("rootvia", "file"), "root_url": case.get("root_url", ""),
@@ -1468,7 +1539,7 @@ def _run_sgx(case, scratch, tag):
     o = _obs(case, dev.truth(ud))
     diag = {"exc": {}, "stdout": {}, "applied": dev.alt.applied, "faithful": []}
     http = fakehttp.FakeHttp(node=make_node(case), node_url=case.get("node_url"))
-    with fakehttp.Patched(http):
+    with fakehttp.Patched(http), Zone(case.get("tz")):
         _run_sgx_commands(case, scratch, tag, dev, world, ud, ud_text, o, diag, http)
     o["http"] = http.calls
     o["ud_sent"] = ud_sent(dev)
@@ -1650,6 +1721,11 @@ def concretise(b, rng, profile=None, grind=False):
         case.update({"hist": b["hist"], "ud1": content(rng, 32, p1).hex(), "relock": rng.random() < 0.5,
                      "state1": {"best": content(rng, 32, p1).hex(), "ltx": content(rng, 8, p1).hex(),
                                 "ts": rng.choice((0, 1, rng.getrandbits(40)))}})
+    ck = b.get("clock")
+    if ck and (ck.get("tz", "UTC0") != "UTC0" or ck.get("kind", "far") != "far"):
+        case["tz"] = ck["tz"]
+        if ck.get("kind", "far") != "far":
+            case["when"] = {"who": ck["who"], "kind": ck["kind"], "minutes": rng.choice(EDGE_MINUTES)}
     dg = b.get("digest")
     if dg and dg.get("site", "none") != "none":
         case["digest"] = {"site": dg["site"], "cls": dg["cls"]}
@@ -1763,6 +1839,10 @@ def signature(clause, case):
         s += " root=url"
     if case.get("hist", "single") != "single":
         s += " hist=%s" % case["hist"]
+    if case.get("tz") or case.get("when"):
+        s += " tz=%s" % (case.get("tz") or "UTC0")
+        if case.get("when"):
+            s += " when=%s:%s" % (case["when"]["who"], case["when"]["kind"])
     if case.get("digest") and a["site"] == "none":
         s += " digest=%s:%s" % (case["digest"]["site"], case["digest"]["cls"])
     if case.get("sigshape") and a["site"] == "none":
